@@ -414,9 +414,10 @@ pub fn run(tier: Tier) -> ! {
         }
     });
     // evaluate
-    // incl. sentences of exactly one character (nothing to predict, but one token to count and to tag)
+    // incl. sentences of exactly one character (nothing to predict, but one token to count and to tag): every
+    // combination of the model's candidates for "a", so that one of them IS the prediction
     let untagged = ["a b", "ab a", "あ a1", "abab", "a ba b", "", "火星 猫 だ", "1 1a", "a\\/b a\\ b", "｢あ｣ ｡", "a", "a b\\ ", "\u{3000} a", "a \t"];
-    let tagged = ["a/X/p b", "ab/Z/s a/Y/q", "あ/V a", "a/X/q b a/Y/p", "", "ab/Z/t", "b a/X/r", "a/X/p", "a/W/q"];
+    let tagged = ["a/X/p b", "ab/Z/s a/Y/q", "あ/V a", "a/X/q b a/Y/p", "", "ab/Z/t", "b a/X/r", "a/X/p", "a/W/q", "a/X/q", "a/X/r", "a/Y/p", "a/Y/q", "a/Y/r", "ab/Z/s"];
     let mut ejobs = vec![];
     for model in 0..N_MODELS {
         for bits in 0..8u8 {
@@ -425,6 +426,19 @@ pub fn run(tier: Tier) -> ! {
                 // tagged references only where the tool predicts tags of the same arity
                 let lines: &[&str] = if fl.predict_tags && model >= 1 { &tagged } else { &untagged };
                 let nmax = tier.pick(2, 3);
+                // tagged references ALSO where the tool produces no tags at all (no --predict-tags, or a model
+                // without tag models): no token with a tag can then be correct
+                if !(fl.predict_tags && model >= 1) {
+                    for n in 1..=2 {
+                        for v in crate::gen::vectors(tagged.len() as u8, n) {
+                            let body: Vec<&str> = v.iter().map(|&i| tagged[i as usize]).collect();
+                            if body.iter().all(|l| l.is_empty()) {
+                                continue;
+                            }
+                            ejobs.push((fl.clone(), body.join("\n") + "\n"));
+                        }
+                    }
+                }
                 for n in 1..=nmax {
                     for v in crate::gen::vectors(lines.len() as u8, n) {
                         let body: Vec<&str> = v.iter().map(|&i| lines[i as usize]).collect();
@@ -453,7 +467,7 @@ pub fn run(tier: Tier) -> ! {
     chk.assume("layout: tokenised line, newline, then the score block, then the tag-score block (the layout of the default mode and of the README); for a rejected line only the empty line is fixed, an empty block per requested block kind is tolerated");
     chk.assume("--tag-scores without --predict-tags is meaningless: a clean refusal (non-zero exit, empty stdout) or normal output without tag blocks is accepted, a panic is not");
     chk.finish(
-        "predict: every stream of 1..2 (thorough: + the 3-line streams containing a rejected line) lines from a 17-line pool (empty, blank lines of one and three spaces, the four dash look-alikes whose character type changes under normalisation next to Other and Katakana characters, NUL, spaces, slashes, backslashes, half-width ASCII, half-width CJK punctuation whose full-width form has the same byte length, combining mark, multi-byte, one 100-character line; plus streams with 3000- (thorough: 4000- and 20000-) character lines) with and without final newline x every subset of {--no-norm, --predict-tags, --scores, --tag-scores} x 9 wsconst settings (none, D, G, D G, R, H R, T, O, K O T) x 3 models (without tags, with tags, with tags and a bias that splits almost everywhere so that filters really merge tokens) (quick: a rotating third of the stream x flag-set product); evaluate: every stream of 1..2/1..3 reference lines (one-character sentences and lines whose first / last token is or ends in white space - an escaped space, U+3000, a tab - included) x {--no-norm} x {--predict-tags} x {char, word} x 9 wsconst settings x 3 models (quick: a quarter); stdout and exit status of the real binaries vs the library pipeline run in-process; non-trivial = blocks requested or more than one line",
+        "predict: every stream of 1..2 (thorough: + the 3-line streams containing a rejected line) lines from a 17-line pool (empty, blank lines of one and three spaces, the four dash look-alikes whose character type changes under normalisation next to Other and Katakana characters, NUL, spaces, slashes, backslashes, half-width ASCII, half-width CJK punctuation whose full-width form has the same byte length, combining mark, multi-byte, one 100-character line; plus streams with 3000- (thorough: 4000- and 20000-) character lines) with and without final newline x every subset of {--no-norm, --predict-tags, --scores, --tag-scores} x 9 wsconst settings (none, D, G, D G, R, H R, T, O, K O T) x 3 models (without tags, with tags, with tags and a bias that splits almost everywhere so that filters really merge tokens) (quick: a rotating third of the stream x flag-set product); evaluate: every stream of 1..2/1..3 reference lines (tagged references also where the tool predicts no tags) (one-character sentences and lines whose first / last token is or ends in white space - an escaped space, U+3000, a tab - included) x {--no-norm} x {--predict-tags} x {char, word} x 9 wsconst settings x 3 models (quick: a quarter); stdout and exit status of the real binaries vs the library pipeline run in-process; non-trivial = blocks requested or more than one line",
         true,
         &replay,
     )
